@@ -11,7 +11,7 @@
 From Coq Require Import List Lia Arith Bool.
 From Spl Require Import Proofs.GrammarProofs Spec.Typing Model.Errors Proofs.SemProofs Proofs.TypingProofs Proofs.CompleteSem
   Proofs.FormatDiagErase Proofs.FormatDiagSem Proofs.FormatDiagMsgs Proofs.FormatDiagTop Proofs.FormatDiagAny Proofs.RangeProofs.
-From Spl Require Import Proofs.SynFaults Proofs.SynFaultsStmt Proofs.SynFaultsProg Proofs.SynFaultsText.
+From Spl Require Import Proofs.SynFaults Proofs.SynFaultsEP Proofs.SynFaultsStmt Proofs.SynFaultsProg Proofs.SynFaultsText.
 Import ListNotations.
 Local Open Scope nat_scope.
 
@@ -35,12 +35,28 @@ Ltac unblk :=
 Lemma x_args_clean a o : forallb (fun r : expr * nat => clean_expr (fst r)) (x_sep fl_cmp (x_cmp 0) o a) = true.
 Proof. destruct a as [[e l]|]; cbn [x_sep forallb fst]; [|reflexivity]. now rewrite clean_cmp, clean_tail. Qed.
 
+Lemma fxe0_clean :
+  (forall v o, clean_var (fxg_var e_none o v) = true) /\ (forall f o, clean_expr (fxg_fac e_none o f) = true) /\
+  (forall m o, clean_expr (fxg_mul e_none o m) = true) /\ (forall a o, clean_expr (fxg_add e_none o a) = true) /\
+  (forall e o, clean_expr (fxg_cmp e_none o e) = true).
+Proof.
+  pose proof clean_expr_all as (Cv & Cf & Cm & Ca & Cc).
+  apply fexpr_mutind; intros; fxg_eqs; cbn [clean_var clean_expr clean_opt fst einfo i_errs]; rewrite ?Cv, ?Cf, ?Cm, ?Ca, ?Cc, ?H; reflexivity.
+Qed.
+
+Lemma fx0_args_clean a o : forallb (fun r : expr * nat => clean_expr (fst r)) (fxg_args e_none o a) = true.
+Proof.
+  destruct a as [e l|e0 pre c e post]; cbn [fxg_args]; cbv zeta; cbn [forallb fst]; rewrite ?forallb_app; cbn [forallb fst];
+    rewrite ?clean_cmp, ?clean_tail, ?(proj2 (proj2 (proj2 (proj2 fxe0_clean)))); reflexivity.
+Qed.
+
 Lemma fx0_clean :
   (forall s o, clean_stmt (fx0_stmt o s) = true) /\
   (forall b o, forallb (fun r : stmt * nat => clean_stmt (fst r)) (fx0_stmts o b) = true).
 Proof.
   apply fstmt_mutind; intros; unblk; cbn [fxg_stmt clean_stmt clean_opt forallb fst einfo i_errs];
-    rewrite ?clean_cmp, ?clean_var_ok, ?x_args_clean, ?H, ?(proj1 clean_stmt_all), ?(proj2 clean_stmt_all); reflexivity.
+    rewrite ?clean_cmp, ?clean_var_ok, ?x_args_clean, ?H, ?(proj1 clean_stmt_all), ?(proj2 clean_stmt_all),
+      ?(proj1 fxe0_clean), ?(proj2 (proj2 (proj2 (proj2 fxe0_clean)))), ?fx0_args_clean; reflexivity.
 Qed.
 
 Lemma x_decls_clean o ds : forallb (fun r : gdecl * nat => clean_gdecl (fst r)) (x_decls o ds) = true.
@@ -55,7 +71,7 @@ Proof.
     cbn [fxg_decl clean_gdecl]; cbv zeta; cbn [pd_name pd_params pd_vars pd_stmts pd_info td_name td_ty td_info clean_opt fst einfo i_errs].
   - rewrite x_params_clean, clean_vardecls, (proj2 fx0_clean). reflexivity.
   - rewrite x_params_clean, forallb_app. cbn [forallb fst]. rewrite !clean_vardecls, (proj2 clean_stmt_all).
-    unfold fxg_var. cbv zeta. cbn [clean_vardecl clean_opt fst]. rewrite clean_type. reflexivity.
+    unfold fxg_vdecl. cbv zeta. cbn [clean_vardecl clean_opt fst]. rewrite clean_type. reflexivity.
   - rewrite x_params_clean, clean_vardecls, (proj2 clean_stmt_all). reflexivity.
   - rewrite clean_type. reflexivity.
 Qed.
@@ -70,6 +86,68 @@ Qed.
 Section Two.
 Variables E E' : pmsg -> nat -> list err.
 
+Lemma fxge_ok :
+  (forall v o, VarOk (fxg_var E o v) -> VarOk (fxg_var E' o v)) /\ (forall f o, ExprOk (fxg_fac E o f) -> ExprOk (fxg_fac E' o f)) /\
+  (forall m o, ExprOk (fxg_mul E o m) -> ExprOk (fxg_mul E' o m)) /\ (forall a o, ExprOk (fxg_add E o a) -> ExprOk (fxg_add E' o a)) /\
+  (forall e o, ExprOk (fxg_cmp E o e) -> ExprOk (fxg_cmp E' o e)).
+Proof.
+  apply fexpr_mutind; intros; repeat rewrite ?fxg_eq_VIdxC, ?fxg_eq_VArr, ?fxg_eq_VIdx, ?fxg_eq_FaVar, ?fxg_eq_FaNeg, ?fxg_eq_FaParC, ?fxg_eq_FaPar,
+    ?fxg_eq_MuFac, ?fxg_eq_MuL, ?fxg_eq_MuR, ?fxg_eq_AdMul, ?fxg_eq_AdL, ?fxg_eq_AdR, ?fxg_eq_CmAdd, ?fxg_eq_CmL, ?fxg_eq_CmR in *;
+    cbn [VarOk ExprOk] in *; intuition auto.
+Qed.
+
+Lemma ty_fxge L G :
+  (forall v o t, var_type L G (fxg_var E o v) t -> var_type L G (fxg_var E' o v) t) /\
+  (forall f o t, expr_type L G (fxg_fac E o f) t -> expr_type L G (fxg_fac E' o f) t) /\
+  (forall m o t, expr_type L G (fxg_mul E o m) t -> expr_type L G (fxg_mul E' o m) t) /\
+  (forall a o t, expr_type L G (fxg_add E o a) t -> expr_type L G (fxg_add E' o a) t) /\
+  (forall e o t, expr_type L G (fxg_cmp E o e) t -> expr_type L G (fxg_cmp E' o e) t).
+Proof.
+  apply fexpr_mutind; intros; repeat rewrite ?fxg_eq_VIdxC, ?fxg_eq_VArr, ?fxg_eq_VIdx, ?fxg_eq_FaVar, ?fxg_eq_FaNeg, ?fxg_eq_FaParC, ?fxg_eq_FaPar,
+    ?fxg_eq_MuFac, ?fxg_eq_MuL, ?fxg_eq_MuR, ?fxg_eq_AdMul, ?fxg_eq_AdL, ?fxg_eq_AdR, ?fxg_eq_CmAdd, ?fxg_eq_CmL, ?fxg_eq_CmR in *;
+    auto;
+    match goal with
+    | Ht : var_type _ _ (ArrAccess _ _ _) _ |- _ => inversion Ht; subst; eapply VT_index; eauto
+    | Ht : expr_type _ _ (EVar _) _ |- _ => inversion Ht; subst; apply ET_var; auto
+    | Ht : expr_type _ _ (EUn _ _ _) _ |- _ => inversion Ht; subst; apply ET_neg; auto
+    | Ht : expr_type _ _ (EBrack _ _) _ |- _ => inversion Ht; subst; apply ET_paren; auto
+    | Ht : expr_type _ _ (EBin _ _ _ _) _ |- _ => inversion Ht; subst; [apply ET_arith | apply ET_compare]; auto
+    end.
+Qed.
+
+Lemma fxg_args_ok a o : Forall (RefP ExprOk) (fxg_args E o a) -> Forall (RefP ExprOk) (fxg_args E' o a).
+Proof.
+  destruct a as [e l|e0 pre c e post]; cbn [fxg_args]; cbv zeta; intros H.
+  - inversion H as [|x0 l0 H1 H2]; subst. constructor; [|exact H2]. apply (proj2 (proj2 (proj2 (proj2 fxge_ok)))), H1.
+  - inversion H as [|x0 l0 H1 H2]; subst. constructor; [exact H1|]. apply Forall_app in H2. destruct H2 as [H3 H4].
+    inversion H4 as [|x1 l1 H5 H6]; subst. apply Forall_app. split; [exact H3|]. constructor; [|exact H6].
+    apply (proj2 (proj2 (proj2 (proj2 fxge_ok)))), H5.
+Qed.
+
+Lemma is_var_fxg e o : (exists v, fxg_cmp E o e = EVar v) -> exists v, fxg_cmp E' o e = EVar v.
+Proof.
+  destruct e as [a|l c op r|l c op r]; [|intros [v Hv]; discriminate Hv..].
+  destruct a as [m|a c op m|a c op m]; [|intros [v Hv]; discriminate Hv..].
+  destruct m as [f|m c op f|m c op f]; [|intros [v Hv]; discriminate Hv..].
+  destruct f as [v0|c f|c1 e|c1 e c2]; [|intros [v Hv]; discriminate Hv..].
+  intros _. eexists. reflexivity.
+Qed.
+
+Lemma arg_fxg L G e off p : arg_ok L G (fxg_cmp E 0 e, off) p -> arg_ok L G (fxg_cmp E' 0 e, off) p.
+Proof.
+  intros H. inversion H as [a off0 p0 t Ht Hp Hr]; subst. eapply Arg_ok; [apply (proj2 (proj2 (proj2 (proj2 (ty_fxge L G))))), Ht | exact Hp|].
+  intros Hv. apply is_var_fxg, Hr, Hv.
+Qed.
+
+Lemma args_fxg L G a o ps : Forall2 (arg_ok L G) (fxg_args E o a) ps -> Forall2 (arg_ok L G) (fxg_args E' o a) ps.
+Proof.
+  destruct a as [e l|e0 pre c e post]; cbn [fxg_args]; cbv zeta; intros H.
+  - inversion H as [|x0 y0 l0 l1 H1 H2]; subst. constructor; [apply arg_fxg, H1 | exact H2].
+  - inversion H as [|x0 y0 l0 l1 H1 H2]; subst. constructor; [exact H1|].
+    apply Forall2_app_inv_l in H2. destruct H2 as (q1 & q2 & H3 & H4 & ->).
+    inversion H4 as [|x1 y1 l2 l3 H5 H6]; subst. apply Forall2_app; [exact H3|]. constructor; [apply arg_fxg, H5 | exact H6].
+Qed.
+
 Lemma fxg_ok :
   (forall s o, StmtOk (fxg_stmt E o s) -> StmtOk (fxg_stmt E' o s)) /\
   (forall b o, Forall (RefP StmtOk) (fxg_stmts E o b) -> Forall (RefP StmtOk) (fxg_stmts E' o b)).
@@ -81,6 +159,12 @@ Proof.
   - intros c1 c2 e t o H. exact H.
   - intros c1 c2 e t c4 s o H. exact H.
   - intros c1 c2 e b o H. exact H.
+  - intros v c1 e c2 o [H1 H2]. split; [apply (proj1 fxge_ok), H1 | exact H2].
+  - intros v c1 e c2 o [H1 H2]. split; [exact H1 | apply (proj2 (proj2 (proj2 (proj2 fxge_ok)))), H2].
+  - intros c1 c2 e c3 t o [H1 H2]. split; [apply (proj2 (proj2 (proj2 (proj2 fxge_ok)))), H1 | exact H2].
+  - intros c1 c2 e c3 t c4 s o [H1 H2]. split; [apply (proj2 (proj2 (proj2 (proj2 fxge_ok)))), H1 | exact H2].
+  - intros c1 c2 e c3 b o [H1 H2]. split; [apply (proj2 (proj2 (proj2 (proj2 fxge_ok)))), H1 | exact H2].
+  - intros c1 f c2 a c3 c4 o [H1 H2]. split; [exact H1 | apply fxg_args_ok, H2].
   - intros c1 c2 e c3 t IH o [H1 [H2 H3]]. split; [exact H1|]. split; [apply IH, H2 | exact H3].
   - intros c1 c2 e c3 t IH c4 s o [H1 [H2 H3]]. split; [exact H1|]. split; [apply IH, H2 | exact H3].
   - intros c1 c2 e c3 t c4 s IH o [H1 [H2 H3]]. split; [exact H1|]. split; [exact H2 | apply IH, H3].
@@ -121,6 +205,13 @@ Proof.
   - intros c1 c2 e t o H. cbn [fxg_stmt] in *. inversion H; subst. apply WT_if; assumption.
   - intros c1 c2 e t c4 s o H. cbn [fxg_stmt] in *. inversion H; subst. apply WT_if_else; assumption.
   - intros c1 c2 e b o H. cbn [fxg_stmt] in *. inversion H; subst. apply WT_while; assumption.
+  - intros v c1 e c2 o H. cbn [fxg_stmt] in *. inversion H; subst. apply WT_assign; [apply (proj1 (ty_fxge _ _)) |]; assumption.
+  - intros v c1 e c2 o H. cbn [fxg_stmt] in *. inversion H; subst. apply WT_assign; [|apply (proj2 (proj2 (proj2 (proj2 (ty_fxge _ _)))))]; assumption.
+  - intros c1 c2 e c3 t o H. cbn [fxg_stmt] in *. inversion H; subst. apply WT_if; [apply (proj2 (proj2 (proj2 (proj2 (ty_fxge _ _)))))|]; assumption.
+  - intros c1 c2 e c3 t c4 s o H. cbn [fxg_stmt] in *. inversion H; subst.
+    apply WT_if_else; [apply (proj2 (proj2 (proj2 (proj2 (ty_fxge _ _))))) | |]; assumption.
+  - intros c1 c2 e c3 b o H. cbn [fxg_stmt] in *. inversion H; subst. apply WT_while; [apply (proj2 (proj2 (proj2 (proj2 (ty_fxge _ _)))))|]; assumption.
+  - intros c1 f c2 a c3 c4 o H. cbn [fxg_stmt] in *. inversion H; subst. eapply WT_call; [eassumption | apply args_fxg; eassumption].
   - intros c1 c2 e c3 t IH o H. cbn [fxg_stmt] in *. inversion H; subst. apply WT_if; [assumption | apply IH; assumption].
   - intros c1 c2 e c3 t IH c4 s o H. cbn [fxg_stmt] in *. inversion H; subst.
     apply WT_if_else; [assumption | apply IH; assumption | assumption].
@@ -149,7 +240,7 @@ Proof.
     match goal with |- wf_gdecl _ _ (GProc ?d') _ => exact (WF_proc G off d' name L1 ps' L2 Hn Hl Hp Hv) end.
   - inversion H as [|d name L1 ps' L2 Hn Hl Hp Hv]; subst. cbn [pd_vars pd_name pd_params] in *.
     match goal with |- wf_gdecl _ _ (GProc ?d') _ => refine (WF_proc G off d' name L1 ps' L2 Hn Hl Hp _) end.
-    cbn [pd_vars]. unfold fxg_var in *. cbv zeta in *. eapply wf_vars_info; [|exact Hv]. reflexivity.
+    cbn [pd_vars]. unfold fxg_vdecl in *. cbv zeta in *. eapply wf_vars_info; [|exact Hv]. reflexivity.
   - inversion H as [|d name L1 ps' L2 Hn Hl Hp Hv]; subst.
     match goal with |- wf_gdecl _ _ (GProc ?d') _ => exact (WF_proc G off d' name L1 ps' L2 Hn Hl Hp Hv) end.
   - inversion H as [d name te o t0 Hn Hm Hl Ht Hd|]; subst.
@@ -215,6 +306,43 @@ Proof.
   - intros s IHs r IHr o o'. cbn [x_stmts er_stmts]. rewrite (IHr _ (o' + len (fl_stmt s))). reflexivity.
 Qed.
 
+Lemma er_fxe0 :
+  (forall v o o', er_var (fxg_var e_none o v) = er_var (x_var o' (orig_var v))) /\
+  (forall f o o', er_expr (fxg_fac e_none o f) = er_expr (x_fac o' (orig_fac f))) /\
+  (forall m o o', er_expr (fxg_mul e_none o m) = er_expr (x_mul o' (orig_mul m))) /\
+  (forall a o o', er_expr (fxg_add e_none o a) = er_expr (x_add o' (orig_add a))) /\
+  (forall e o o', er_expr (fxg_cmp e_none o e) = er_expr (x_cmp o' (orig_cmp e))).
+Proof.
+  pose proof er_x_off as (Xv & Xf & Xm & Xa & Xc).
+  apply fexpr_mutind; intros; fxg_eqs; cbn [orig_var orig_fac orig_mul orig_add orig_cmp x_var x_fac x_mul x_add x_cmp er_var er_expr];
+    first [solve [auto] | f_equal; auto].
+  all: try (f_equal; f_equal; auto).
+Qed.
+
+Lemma er_tail_off l o o' : er_args (x_tail fl_cmp (x_cmp 0) o l) = er_args (x_tail fl_cmp (x_cmp 0) o' l).
+Proof.
+  unfold er_args. revert o o'. induction l as [|[c x] l IH]; intros o o'; [reflexivity|]. cbn [x_tail map fst]. f_equal. apply IH.
+Qed.
+
+Lemma x_tail_app l1 c a l2 o :
+  x_tail fl_cmp (x_cmp 0) o (l1 ++ (c, a) :: l2) =
+  x_tail fl_cmp (x_cmp 0) o l1 ++ (x_cmp 0 a, o + len (fl_tail fl_cmp l1) + len c + 1)
+    :: x_tail fl_cmp (x_cmp 0) (o + len (fl_tail fl_cmp l1) + len c + 1 + len (fl_cmp a)) l2.
+Proof.
+  revert o. induction l1 as [|[c' a'] l1 IH]; intros o; cbn [app x_tail].
+  - cbn [fl_tail flat_map length]. rewrite Nat.add_0_r. reflexivity.
+  - rewrite IH, fl_tail_cons. rewrite !app_length, cm_len. cbn [length]. rewrite app_length.
+    f_equal. f_equal. f_equal; [f_equal; lia|]. f_equal. lia.
+Qed.
+
+Lemma er_fx0_args a o o' : er_args (fxg_args e_none o a) = er_args (x_sep fl_cmp (x_cmp 0) o' (orig_args a)).
+Proof.
+  destruct a as [e l|e0 pre c e post]; cbn [fxg_args orig_args x_sep]; cbv zeta.
+  - unfold er_args at 1 2. cbn [map fst]. f_equal; [f_equal; apply er_fxe0|]. apply er_tail_off.
+  - rewrite x_tail_app. unfold er_args. cbn [map fst]. rewrite !map_app. cbn [map fst]. f_equal.
+    f_equal; [apply er_tail_off|]. f_equal; [f_equal; apply er_fxe0 | apply er_tail_off].
+Qed.
+
 Lemma er_fx0 :
   (forall s o o', er_stmt (fx0_stmt o s) = er_stmt (x_stmt o' (orig_stmt s))) /\
   (forall b o o', er_stmts (fx0_stmts o b) = er_stmts (x_stmts o' (orig_stmts b))).
@@ -226,6 +354,15 @@ Proof.
   - intros c1 c2 e t o o'. cbn [fxg_stmt orig_stmt x_stmt]. cbv zeta. rewrite !er_stmt_if. reflexivity.
   - intros c1 c2 e t c4 s o o'. cbn [fxg_stmt orig_stmt x_stmt]. cbv zeta. rewrite !er_stmt_if. reflexivity.
   - intros c1 c2 e b o o'. cbn [fxg_stmt orig_stmt x_stmt]. cbv zeta. rewrite !er_stmt_while. reflexivity.
+  - intros v c1 e c2 o o'. cbn [fxg_stmt orig_stmt x_stmt er_stmt er_oexpr]. rewrite (proj1 er_fxe0 v o o'). reflexivity.
+  - intros v c1 e c2 o o'. cbn [fxg_stmt orig_stmt x_stmt er_stmt er_oexpr]. rewrite (proj1 er_x_off v o o'), (proj2 (proj2 (proj2 (proj2 er_fxe0))) e 0 0). reflexivity.
+  - intros c1 c2 e c3 t o o'. cbn [fxg_stmt orig_stmt x_stmt]. cbv zeta. rewrite !er_stmt_if. cbn [er_oexpr er_ostmt].
+    rewrite (proj2 (proj2 (proj2 (proj2 er_fxe0))) e 0 0). reflexivity.
+  - intros c1 c2 e c3 t c4 s o o'. cbn [fxg_stmt orig_stmt x_stmt]. cbv zeta. rewrite !er_stmt_if. cbn [er_oexpr er_ostmt].
+    rewrite (proj2 (proj2 (proj2 (proj2 er_fxe0))) e 0 0). reflexivity.
+  - intros c1 c2 e c3 b o o'. cbn [fxg_stmt orig_stmt x_stmt]. cbv zeta. rewrite !er_stmt_while. cbn [er_oexpr er_ostmt].
+    rewrite (proj2 (proj2 (proj2 (proj2 er_fxe0))) e 0 0). reflexivity.
+  - intros c1 f c2 a c3 c4 o o'. cbn [fxg_stmt orig_stmt x_stmt]. rewrite !er_stmt_call, (er_fx0_args a _ (o' + len c1 + 1 + len c2 + 1)). reflexivity.
   - intros c1 c2 e c3 t IH o o'. cbn [fxg_stmt orig_stmt x_stmt]. cbv zeta. rewrite !er_stmt_if. cbn [er_oexpr er_ostmt].
     rewrite (IH 0 0). reflexivity.
   - intros c1 c2 e c3 t IH c4 s o o'. cbn [fxg_stmt orig_stmt x_stmt]. cbv zeta. rewrite !er_stmt_if. cbn [er_oexpr er_ostmt].
